@@ -185,6 +185,7 @@ fn dispatch_search(cmd: &str, args: &[String], tier: &String, seed: u64, out: &S
         "c06-cmd" => props::c0607::replay_command_point(&arg(&args, "--fen").unwrap(), arg(&args, "--final-depth").unwrap().parse().unwrap(), &arg(&args, "--mode").unwrap(), arg(&args, "--at").unwrap().parse().unwrap()),
         "c06-history" => props::c0607::replay_history(&arg(&args, "--fen").unwrap(), arg(&args, "--depth").unwrap().parse().unwrap(), arg(&args, "--at").unwrap().parse().unwrap()),
         "c07-real" => props::c0607::replay_real(&engine_plain(&args), &arg(&args, "--prior").unwrap_or_default(), &arg(&args, "--target").unwrap(), &arg(&args, "--go").unwrap(), arg(&args, "--budget").unwrap().parse().unwrap()),
+        "c07-big" => props::c0607::replay_big(&arg(&args, "--fen").unwrap(), &arg(&args, "--stages").unwrap(), arg(&args, "--stage").unwrap().parse().unwrap(), arg(&args, "--which").unwrap().parse().unwrap(), arg(&args, "--budget").unwrap().parse().unwrap()),
         "c07-go" => props::c0607::replay_go(&arg(&args, "--cmds").unwrap()),
         "c08" => {
             props::c08::run(&tier, seed, &out);
